@@ -217,7 +217,7 @@ def TimeRange.inRangeStarted (r : TimeRange) : Bool := r.started
 /-! ## is_in_range -/
 
 /-- `self.p1_t0` after lines 230-231 when the message has the valid P1 time `t`:
-`if p1_time and not self.p1_t0: self.p1_t0 = p1_time`. -/
+`if p1_time and not self.p1_t0: self.p1_t0 = Timestamp(p1_time)` (the value is stored; here values are all there is). -/
 def TimeRange.t0After (r : TimeRange) (t : Int) : Int :=
   match r.t0 with
   | some z => z
@@ -320,7 +320,7 @@ def TimeRange.meet (a b : TimeRange) : TimeRange :=
       | some z => some z
       | none => b.t0 }
 
-/-- `self.intersect(other)`: the new state of `self` (of the shallow copy when `in_place=False`); `other` is
+/-- `self.intersect(other)`: the new state of `self` (of the deep copy when `in_place=False`); `other` is
 never modified (the promotion works on a deep copy). -/
 def TimeRange.intersect (a b : TimeRange) : Except TRErr TimeRange :=
   if a.absolute = true ∧ b.absolute = false then
